@@ -318,9 +318,13 @@ def run(ctx: Context, rep) -> None:
            message="one append and one += of the same record on the same "
            "list")
 
+    check_dump(ctx, rep, "C04.dump")
+
+
+def check_dump(ctx: Context, rep, rule: str) -> None:
     # -- description ----------------------------------------------------------------
     rep.rule(
-        "C04.dump",
+        rule,
         "DatasetWriting.write_config: every split named by an update is "
         "replaced by the merged info (split taken from the first path "
         "component), all updates of a split are merged together, the "
@@ -338,18 +342,18 @@ def run(ctx: Context, rep) -> None:
     if not stores or not dumps:
         raise AnalysisError("C04.dump: split store or dump not found")
     after = cfg.reachable(dumps, strict=True)
-    rep.ob("C04.dump", not any(s in after for s in stores), loc=dw.loc(),
+    rep.ob(rule, not any(s in after for s in stores), loc=dw.loc(),
            where=dw.qualname, construct="splits[split] = merged ... dump",
            message="the dump happens after the last update of the split "
            "table")
     d = dumps[0].ast
-    rep.ob("C04.dump", ast.unparse(d.func.value) == "self._dataset_info" and
+    rep.ob(rule, ast.unparse(d.func.value) == "self._dataset_info" and
            not any(k.arg in ("exclude", "include", "exclude_defaults",
                              "exclude_unset", "exclude_none") for k in d.keywords),
            loc=dw.loc(d), where=dw.qualname, construct=short(d),
            message="the whole description is serialised")
     sf = [c for c in dw.calls() if ctx.is_call(dw, c, "utils.safe_update_file")]
-    rep.ob("C04.dump", len(sf) == 1 and any(
+    rep.ob(rule, len(sf) == 1 and any(
         x is d for x in ast.walk(sf[0])), loc=dw.loc(), where=dw.qualname,
            construct="safe_update_file(info=<dump>)",
            message="what is dumped is what is written")
@@ -388,7 +392,7 @@ def run(ctx: Context, rep) -> None:
     okk = ok_merge and ok_loop and ok_group and key_ok and ok_loop and \
         ast.unparse(st.targets[0].slice) == loop.target.elts[0].id and \
         dotted(ctx.arg(val, 0, "updates")) == loop.target.elts[1].id
-    rep.ob("C04.dump", bool(okk), loc=dw.loc(st), where=dw.qualname,
+    rep.ob(rule, bool(okk), loc=dw.loc(st), where=dw.qualname,
            construct=f"{short(st, 60)} for split, updates in "
            f"{grouped}.items()",
            message="updates are grouped per split (defaultdict(list) keyed by "
@@ -407,7 +411,7 @@ def run(ctx: Context, rep) -> None:
             for t in tgts:
                 base = t.value if isinstance(t, ast.Subscript) else t
                 if isinstance(base, ast.Attribute) and base.attr == "splits":
-                    rep.ob("C04.dump", fn is dw and isinstance(t, ast.Subscript)
+                    rep.ob(rule, fn is dw and isinstance(t, ast.Subscript)
                            and not isinstance(n, ast.Delete), loc=fn.loc(n),
                            where=fn.qualname, construct=short(n, 70),
                            message="the split table is only updated entry by "
@@ -417,7 +421,7 @@ def run(ctx: Context, rep) -> None:
                         "clear", "pop", "popitem", "update", "setdefault") and \
                     isinstance(n.func.value, ast.Attribute) and \
                     n.func.value.attr == "splits":
-                rep.ob("C04.dump", False, loc=fn.loc(n), where=fn.qualname,
+                rep.ob(rule, False, loc=fn.loc(n), where=fn.qualname,
                        construct=short(n),
                        message="the split table is mutated wholesale")
 
